@@ -8,6 +8,10 @@
  *           limit : hex size_t;  ending : e (EOF) | r (ECONNRESET) | s (stall, the request is then
  *           cancelled);  segs : decimal sizes a,b,c (0 = one EAGAIN; the unscripted rest arrives as
  *           one segment), "-" (one shot) or rK (every segment K bytes);  options: failat=K failfrom=K sockerr=N sendfail=K
+ *           peer=<j>:<limit hex>:<stream hex>  a SECOND request (GET /b) is made right after the first and is alive at the
+ *           same time on its own connection; its whole response <stream> arrives in one piece + EOF after the first
+ *           connection's j-th data segment.  The result line then continues with " peer: req=.. ret=.. cbs=.. [cb=..] end=.."
+ *           for the second request (same format; areas/http.py compares each half with that request ALONE).
  * result: req=<hex> ret=<ok|null> cbs=<n> [cb=null | cb=<status>/<hdrs>/<body>]* end=<done|cancelled|error|error-cancelled|stuck>
  *           | allocs=<n> refused=<n> live=<n> exit=<ok|code N|sig N>
  *         body : null (NULL, len 0) | toobig (NULL, len (size_t)-1) | <hex> | L<len>C<crc32> (len > 1024)
@@ -151,6 +155,7 @@ unhex(const char * tok, size_t * len, size_t extra)
 
 /* ---- the user callback ---- */
 struct cbctx {
+	int peer;		/* this is the second request of the case: output goes to its own buffer */
 	int ncalls;
 	uint8_t * reqbody;	/* the request body lent to the library, until the callback is invoked */
 	size_t reqbodylen;
@@ -197,8 +202,39 @@ request_body_done(struct cbctx * c)
 	c->reqbody = NULL;
 }
 
+/* the second request's callback text is kept apart from the first one's */
+static char * pout;
+static size_t poutlen, poutcap;
+static void
+swap_out(void)
+{
+	char * o = out; size_t l = outlen, c = outcap;
+
+	out = pout; outlen = poutlen; outcap = poutcap;
+	pout = o; poutlen = l; poutcap = c;
+}
+
+static int callback1(void *, struct http_response *);
+
 static int
 callback(void * cookie, struct http_response * res)
+{
+	struct cbctx * c = cookie;
+	int rc;
+
+	if (c->peer) {
+		wh.b_done = 1;
+		swap_out();
+	} else
+		wh.a_done = 1;
+	rc = callback1(cookie, res);
+	if (c->peer)
+		swap_out();
+	return (rc);
+}
+
+static int
+callback1(void * cookie, struct http_response * res)
 {
 	struct cbctx * c = cookie;
 	size_t i;
@@ -299,7 +335,11 @@ run_case(char ** tok, int ntok)
 	struct sock_addr sa;
 	struct sockaddr_in sin;
 	struct sock_addr * sas[2];
-	struct cbctx ctx = {0, NULL, 0};
+	struct cbctx ctx = {0, 0, NULL, 0};
+	struct cbctx ctxb = {1, 0, NULL, 0};
+	struct http_request reqb;
+	void * HB = NULL;
+	size_t limitb = 0;
 	size_t l, nh = 0, i;
 	char * method, * path;
 	uint8_t * reqbody;
@@ -361,6 +401,17 @@ run_case(char ** tok, int ntok)
 			wh.sendfail_at = (size_t)strtoull(tok[k] + 9, NULL, 10);
 		else if (strcmp(tok[k], "https=1") == 0)
 			use_https = 1;
+		else if (strncmp(tok[k], "peer=", 5) == 0) {
+			char * p = tok[k] + 5;
+			wh.b_after = (size_t)strtoull(p, &p, 10);
+			if (*p == ':') {
+				limitb = (size_t)strtoull(p + 1, &p, 16);
+				if (*p == ':') {
+					wh.bstream = unhex(p + 1, &wh.bstreamlen, 0);
+					wh.has_b = 1;
+				}
+			}
+		}
 	}
 
 	req.method = method;
@@ -411,6 +462,13 @@ run_case(char ** tok, int ntok)
 	(void)use_https;
 	H = http_request(sas, &req, limit, callback, &ctx);
 	request_args_done(&req, method, path, rh, nh);
+	if (H != NULL && wh.has_b) {
+		char * mb = (char *)unhex("474554", &l, 1), * pb = (char *)unhex("2f62", &l, 1);	/* GET /b */
+
+		reqb.method = mb; reqb.path = pb; reqb.nheaders = 0; reqb.headers = NULL; reqb.bodylen = 0; reqb.body = NULL;
+		HB = http_request(sas, &reqb, limitb, callback, &ctxb);
+		drv_scribble(&reqb, sizeof(reqb)); drv_scribble(mb, 4); drv_scribble(pb, 3);
+	}
 	if (H == NULL) {
 		request_body_done(&ctx);
 		/* nothing may be registered: one spin of the loop must find nothing to do */
@@ -429,7 +487,7 @@ run_case(char ** tok, int ntok)
 		size_t taillen;
 
 		for (iter = 0; iter < 50000000; iter++) {
-			if (ctx.ncalls != 0 || wh.stalled || rc != 0)
+			if ((ctx.ncalls != 0 && (HB == NULL || ctxb.ncalls != 0)) || wh.stalled || rc != 0)
 				break;
 			rc = events_run();
 		}
@@ -465,6 +523,23 @@ run_case(char ** tok, int ntok)
 		put(tail, taillen);
 		puts_(" end=");
 		puts_(end);
+		if (wh.has_b) {
+			const char * endb = "done";
+
+			if (HB != NULL && ctxb.ncalls == 0) {
+				endb = (rc != 0) ? "error" : "cancelled";
+				if (rc == 0 || wh_is_live(HB))
+					http_request_cancel(HB);
+			}
+			puts_(" peer: req=");
+			puthex(wh.bsent, wh.bsentlen);
+			puts_(HB == NULL ? " ret=null" : " ret=ok");
+			putnum(" cbs=", (unsigned long long)ctxb.ncalls);
+			if (poutlen)
+				put(pout, poutlen);
+			puts_(" end=");
+			puts_(endb);
+		}
 	}
 	(void)i;
 }
